@@ -190,9 +190,9 @@ theorem link_once_partial (placed : List (ElfDesc × Nat)) (img : Img) (h : link
 
 /-! ## non-vacuity: a concrete two-segment object with bss, symbols and a PLT relocation -/
 
-def exText : PHdr := ⟨1, 5, 120, 0x401000, 4, 4, [0x55, 0x89, 0xe5, 0xc3]⟩
-def exData : PHdr := ⟨1, 6, 124, 0x402000, 2, 6, [0xaa, 0xbb]⟩
-def exStack : PHdr := ⟨0x6474e551, 6, 0, 0, 0, 0, []⟩
+def exText : PHdr := ⟨1, 5, 120, 0x401000, 4, 4, [0x55, 0x89, 0xe5, 0xc3], 0x30000000, 0x1000⟩
+def exData : PHdr := ⟨1, 6, 124, 0x402000, 2, 6, [0xaa, 0xbb], 0x402000, 4⟩
+def exStack : PHdr := ⟨0x6474e551, 6, 0, 0x403000, 0, 16, [], 0, 16⟩   -- not PT_LOAD: not mapped
 def exObj : ElfDesc :=
   { name := "a.out", cls := .c64, enc := .lsb, machine := EM_X86_64, etype := 2, entry := 0x401000,
     phdrs := [exText, exStack, exData],
@@ -204,6 +204,7 @@ example : exObj.wf = true ∧ headerConsistent exObj = true ∧ fits exObj 0x100
 example : image exObj 0x1000 0x403001 = some (0xbb, 3) := by decide          -- file byte, RW
 example : image exObj 0x1000 0x403005 = some (0, 3) := by decide             -- zero fill
 example : image exObj 0x1000 0x403006 = none := by decide                    -- nothing else
+example : image exObj 0x1000 0x404000 = none ∧ image exObj 0x1000 0x30001000 = none := by decide  -- not the GNU_STACK header, not p_paddr
 example : image exObj 0x1000 0x402003 = some (0xc3, 5) := by decide          -- R+X
 example : (entries exObj 0x1000 [0x401003]).map (·.1) = [0x402000, 0x402002, 0x402003] := by decide
 example : symbols exObj 0x1000 = [(0x402002, "main"), (0x403002, "buf"), (0x403004, "puts")] := by decide
@@ -213,14 +214,14 @@ example : programEntry exObj 0x1000 = 0x402000 := by decide
 
 def exProg : ElfDesc :=
   { name := "prog", cls := .c32, enc := .lsb, machine := EM_386, etype := 2, entry := 0x8048000,
-    phdrs := [⟨1, 5, 116, 0x8048000, 4, 4, [0x90, 0x90, 0x90, 0xc3]⟩,
-              ⟨1, 6, 120, 0x8049000, 8, 8, [0, 0, 0, 0, 0x10, 0x80, 0x04, 0x08]⟩],
+    phdrs := [⟨1, 5, 116, 0x8048000, 4, 4, [0x90, 0x90, 0x90, 0xc3], 0x70000000, 1⟩,
+              ⟨1, 6, 120, 0x8049000, 8, 8, [0, 0, 0, 0, 0x10, 0x80, 0x04, 0x08], 0x8049000, 4⟩],
     syms := [], dynsyms := [⟨"", 0, 0, 0, 0, 0⟩, ⟨"puts", 0, 0, 0x12, 0, 0⟩],
     dyns := [], needed := ["libc.so"], relas := [], rels := [⟨0x8049004, 0, 8, 0⟩],
     plt := [⟨0x8049000, 1, 7, 0⟩] }
 def exLib : ElfDesc :=
   { name := "libc.so", cls := .c32, enc := .lsb, machine := EM_386, etype := 3, entry := 0x1000,
-    phdrs := [⟨1, 5, 116, 0x1000, 4, 4, [0x90, 0x90, 0x90, 0xc3]⟩],
+    phdrs := [⟨1, 5, 116, 0x1000, 4, 4, [0x90, 0x90, 0x90, 0xc3], 0x70000000, 1⟩],
     syms := [], dynsyms := [⟨"", 0, 0, 0, 0, 0⟩, ⟨"puts", 0x1002, 2, 0x12, 0, 1⟩],
     dyns := [], needed := [], relas := [], rels := [], plt := [] }
 def exPlaced : List (ElfDesc × Nat) := [(exProg, 0), (exLib, 0x42000000)]
